@@ -17,6 +17,7 @@ import (
 	"strings"
 
 	"golang.org/x/tools/go/packages"
+	"golang.org/x/tools/go/ssa"
 )
 
 type cliCmd struct {
@@ -92,6 +93,38 @@ func (V *Verifier) scanAutoCLI() []*Oblig {
 		}
 		sort.Strings(bad)
 		add("proto-tables-agree-with-generated-types", len(bad) == 0, "the request fields read from the .proto files are the protobuf names in the struct tags of the generated Go request types", fmt.Sprintf("%d request messages; disagreements: %v", len(msgs), bad))
+	}
+	// the descriptors only count when autocli finds them: the value ProvideModule hands to the application as its
+	// appmodule.AppModule must carry AutoCLIOptions() *autocliv1.ModuleOptions in its method set (autocli asks with a type assertion)
+	{
+		okReg, detail := false, "module.ProvideModule hands no appmodule.AppModule to the application"
+		for _, fn := range V.moduleScan().fns {
+			if fn.Name() != "ProvideModule" || fnPkgPath(fn) != modModule || fn.Parent() != nil {
+				continue
+			}
+			for _, b := range fn.Blocks {
+				for _, in := range b.Instrs {
+					mi, isMI := in.(*ssa.MakeInterface)
+					if !isMI {
+						continue
+					}
+					nt, isNamed := mi.Type().(*types.Named)
+					if !isNamed || nt.Obj().Name() != "AppModule" || nt.Obj().Pkg() == nil || nt.Obj().Pkg().Path() != "cosmossdk.io/core/appmodule" {
+						continue
+					}
+					dyn := mi.X.Type()
+					sel := types.NewMethodSet(dyn).Lookup(nil, "AutoCLIOptions")
+					if sel == nil {
+						okReg, detail = false, fmt.Sprintf("the module value of type %s has no method AutoCLIOptions in its method set: autocli registers no command for the module", dyn)
+						continue
+					}
+					sig := sel.Type().(*types.Signature)
+					okReg = sig.Params().Len() == 0 && sig.Results().Len() == 1 && sig.Results().At(0).Type().String() == "*cosmossdk.io/api/cosmos/autocli/v1.ModuleOptions"
+					detail = fmt.Sprintf("module value of type %s; AutoCLIOptions has type %s", dyn, sig)
+				}
+			}
+		}
+		add("descriptors-are-registered", okReg, "the module value given to the application implements autocli's HasAutoCLIConfig (AutoCLIOptions() *autocliv1.ModuleOptions), so the descriptors checked below are the commands of the binary", detail)
 	}
 	used := map[string]map[string]bool{"Query": {}, "Tx": {}}
 	names := map[string]map[string]string{"Query": {}, "Tx": {}}
@@ -401,7 +434,6 @@ func (V *Verifier) protoTables() (map[string]map[string]string, map[string]map[s
 	}
 	return svc, msgs, nil
 }
-
 
 // kebabCase: "ListVestingQueue" -> "list-vesting-queue".
 func kebabCase(s string) string {
